@@ -17,7 +17,10 @@ QInit(sc) ==
       unb   |-> 0,      \* unblock() calls so far
       rel   |-> 0,      \* receive calls that can only have been released by an unblock
       empt  |-> 0,      \* all receive calls that returned empty-handed (may have consumed a token)
-      lastm |-> [c \in 1..Len(sc.conns) |-> -1] ]
+      lastm |-> [c \in 1..Len(sc.conns) |-> -1],
+      \* virtual time only (D1): the instants at which anything was recorded, the current instant, and
+      \* whether something other than unblock calls and empty-handed returns happened at it
+      inst  |-> {}, cur |-> -1, mud |-> FALSE ]
 
 Blocked(s) == {t \in DOMAIN s.call : s.call[t].in}
 AnyBlocked(s) == Blocked(s) # {}
@@ -36,8 +39,17 @@ RecvRet(s, sc, e) ==
          ELSE [ s |-> [s1 EXCEPT !.lastm[e.c + 1] = IF e.m > @ THEN e.m ELSE @],
                 v |-> V(sc.single => e.m > s.lastm[e.c + 1], "C07", "WireOrder") ]
     ELSE
-      LET definite == \/ cl.kind \in {"recv", "iter"}
+      LET \* A timed call that comes back empty-handed after its time is up has given up -- unless,
+          \* on the virtual clock, nothing can have ended its wait at this instant except an unblock:
+          \* a wait of the call lasts T from the call or from a wake-up (any recorded instant), so a
+          \* give-up that is not T after a recorded instant, at an instant at which nothing but
+          \* unblock calls and empty-handed returns happened, was woken by an unblock and has used it up.
+          woken == /\ sc.drv = "d1" /\ cl.kind = "timeout" /\ el > 0
+                   /\ (e.now - T) \notin s.inst
+                   /\ ~(e.now = s.cur /\ s.mud)
+          definite == \/ cl.kind \in {"recv", "iter"}
                       \/ cl.kind = "timeout" /\ el + Eps + Slack(sc) < T
+                      \/ woken
           s2 == [s1 EXCEPT !.empt = @ + 1, !.rel = IF definite THEN @ + 1 ELSE @]
       IN
       [ s |-> s2,
@@ -58,10 +70,19 @@ Quiescent(s, sc, e) ==
             \o V(late = {}, "C17", "TimedReceiveLate")
             \o V(trying = {}, "C17", "TryRecvWaited") ]
 
-QStep(s, sc, e) ==
+Clean(e) == e.ev \in {"Unblock", "AppDone", "Quiescent"} \/ (e.ev = "RecvRet" /\ e.res # "req")
+
+Track(s, e) ==
+    IF e.ev = "mark" \/ "now" \notin DOMAIN e THEN s
+    ELSE [s EXCEPT !.inst = @ \cup {e.now}, !.cur = e.now,
+                   !.mud = (IF e.now = s.cur THEN s.mud ELSE FALSE) \/ ~Clean(e)]
+
+QStep0(s, sc, e) ==
     CASE e.ev = "RecvCall" -> RecvCall(s, sc, e)
       [] e.ev = "RecvRet" -> RecvRet(s, sc, e)
       [] e.ev = "Unblock" -> Unblock(s, sc, e)
       [] e.ev = "Quiescent" -> Quiescent(s, sc, e)
       [] OTHER -> [s |-> s, v |-> <<>>]
+
+QStep(s, sc, e) == LET r == QStep0(s, sc, e) IN [s |-> Track(r.s, e), v |-> r.v]
 =============================================================================
